@@ -577,7 +577,7 @@ func runDBCase(c DBCase) (string, map[string]int) {
 	case "txniter":
 		return runTxnIter(c)
 	case "sweep":
-		leveldb.VerifSetCommitHook(sweepHook)
+		leveldb.VerifSetCommitHook(stampHook)
 		d, st, _ := runSweep(c)
 		return d, st
 	}
